@@ -229,6 +229,10 @@ func New(config ...Config) fiber.Handler {
 			if old := manager.get(key); old != nil && old.exp != 0 {
 				_, size := heap.remove(old.heapidx, key)
 				storedBytes -= size
+			} else {
+				// ... or the storage has dropped the entry by itself and only the record is left
+				_, size := heap.removeKey(key)
+				storedBytes -= size
 			}
 			for storedBytes+bodySize > cfg.MaxBytes {
 				key, size := heap.removeFirst()
